@@ -106,6 +106,8 @@ type vconn struct {
 	closed     bool
 	lazyLeft   int
 	dupFd      int           // descriptor obtained through Conn.Dup (ours to close), 0 if none
+	held       []byte        // what the last Next handed out in this callback (it must stay intact until the callback returns)
+	heldAt     int           // its position in the peer's stream
 	floodGate  chan struct{} // closed when the asynchronous writers have issued the requests that are to pile up
 	floodOnce  sync.Once
 	floodLeft  int32         // writers that have not finished piling up yet
@@ -559,6 +561,15 @@ func (h *vhandler) OnTraffic(c Conn) Action {
 		h.rec.emit("StopReq", "src", "OnTraffic", "g", g)
 		action = Shutdown
 	}
+	if vc.held != nil {
+		// the bytes Next handed out earlier in this callback are the application's until it returns: the writes and
+		// buffer traffic in between must not have touched them
+		if !vc.closed && c.(*conn).opened {
+			ok := vsup.Match(vc.held, 1000+sp.id, vc.heldAt) < 0
+			h.rec.emit("ROp", "c", sp.id, "op", "Held", "req", len(vc.held), "n", 0, "ok", ok, "err", "nil", "ib", c.InboundBuffered())
+		}
+		vc.held = nil
+	}
 	h.rec.emit("TrafficEnd", "c", sp.id, "h", vc.h, "action", int(action), "ib", c.InboundBuffered(), "ob", c.OutboundBuffered())
 	return action
 }
@@ -659,6 +670,9 @@ func (h *vhandler) readOps0(vc *vconn, c Conn, emitR func(op string, req, n int,
 				if i%2 == 0 {
 					b, err := c.Next(rs)
 					ok := vsup.Match(b, id, vc.consumed) < 0 && len(b) == rs
+					if err == nil && len(b) > 0 {
+						vc.held, vc.heldAt = b, vc.consumed
+					}
 					vc.consumed += len(b)
 					emitR("Next", rs, len(b), ok, err)
 				} else {
@@ -703,6 +717,9 @@ func (h *vhandler) readOps0(vc *vconn, c Conn, emitR func(op string, req, n int,
 			ok := vsup.Match(b, id, vc.consumed) < 0
 			if err == nil && k > 0 {
 				ok = ok && len(b) == k
+			}
+			if err == nil && len(b) > 0 {
+				vc.held, vc.heldAt = b, vc.consumed
 			}
 			vc.consumed += len(b)
 			emitR("Next", k, len(b), ok, err)
